@@ -109,6 +109,9 @@ pub struct GenParams {
     /// mode 1 either writes two slots (flag 0) or self-destructs to the caller (flag != 0) - the
     /// two behaviours have write sets of the same size - and mode 2 reads a slot
     pub destroy_flip_contract: bool,
+    /// contract 1 is the hand-written "refunder": it sends the value it received straight back to
+    /// its caller (a delegated account can debit and be credited back within one transaction)
+    pub refunder_contract: bool,
 }
 
 impl Default for GenParams {
@@ -136,6 +139,7 @@ impl Default for GenParams {
             reserve_shape: false,
             pointer_contract: false,
             destroy_flip_contract: false,
+            refunder_contract: false,
         }
     }
 }
@@ -430,6 +434,24 @@ pub fn generate(p: &GenParams, seed: u64) -> Case {
                 Stmt::Return(3),
             ];
         }
+        if p.refunder_contract && i == 1 {
+            prog.inits.clear();
+            prog.stmts = vec![
+                Stmt::CallValue(5),
+                Stmt::Caller(6),
+                Stmt::Call { kind: progs::CallKind::Call, a: 6, raw: true, v: 5, vmax: u64::MAX, ds: 7, dr: 7 },
+                Stmt::Return(5),
+            ];
+        }
+        if p.refunder_contract && i == 2 {
+            // "pinger": sends a small value to the refunder (table index n_eoa + 1) and gets it back
+            prog.inits.clear();
+            prog.stmts = vec![
+                Stmt::Const(4, n_eoa + 1),
+                Stmt::Call { kind: progs::CallKind::Call, a: 4, raw: false, v: 1, vmax: 1000, ds: 5, dr: 6 },
+                Stmt::Return(6),
+            ];
+        }
         if p.destroy_flip_contract && i == 0 {
             use progs::Arith::{Add, Eq};
             prog.inits.clear();
@@ -643,6 +665,11 @@ pub fn generate(p: &GenParams, seed: u64) -> Case {
             let mut sum = U256::ZERO;
             for tx in txs.iter().filter(|t| t.caller == addr) {
                 sum = sum.saturating_add(tx.max_balance_spending().unwrap_or(U256::MAX));
+            }
+            if sum > U256::from(u128::MAX) {
+                // a deliberately invalid transaction with an absurd value: no balance shaping
+                // (balances near 2^256 wrap on credit in revm itself and mean nothing)
+                continue;
             }
             let balance = match r.below(5) {
                 0 => sum,
